@@ -9,6 +9,7 @@ set and request; `capabilities` proves the reported capabilities are those prese
 wire form (four zero bytes + text, LE16 byte length) for every text length below 65532.
 -/
 import Switcher.Proofs.Remotes
+import Switcher.Proofs.Manager
 import Switcher.Proofs.Utf8
 import Switcher.Proofs.Hex
 namespace Props.C15
@@ -378,5 +379,135 @@ example : (match mkRemote demoIr with
 example : (match mkRemote demoIr with
     | .ok r => decide (buildCommand r "ON" "DRY" 22 "LOW" "OFF" none = .error .runtimeError)
     | .error _ => false) = true := by decide +kernel
+
+
+/-! ### the remote manager (`SwitcherBreezeRemoteManager.get_remote`: load + cache), for every history
+
+The world of `Model.Manager`: database files that may be written, replaced and removed at any time, any number of manager
+objects on any paths, `get_remote` calls in any order.  What the property needs of the manager is that the remote it hands out
+IS the remote of the set stored under the requested id — in the manager's OWN file — so that everything proved above about
+`mkRemote ir` applies to it; and that this does not depend on other managers, other ids or what happened to other paths. -/
+
+open Proofs.Manager
+
+/-- FIRST LOAD: a manager asked for an id it has not loaded yet opens ITS file as it is NOW and builds the remote of the set stored
+    under that id there (no file: the open fails; id not in the file: KeyError; a set the constructor refuses: its error) -/
+theorem manager_first_load (w : MgrWorld) (i : Nat) (id : List Char) (m : Mgr) (hm : w.mgrs[i]? = some m) (hc : m.cached id = none) :
+    (mgrStep w (.get i id)).2 = (match w.file m.path with
+      | none => .raised .other
+      | some db => match db.get id with
+        | none => .raised .keyError
+        | some ir => match mkRemote ir with
+          | .ok r => .remote w.nextObj r
+          | .error e => .raised e) := by
+  rw [get_miss w i id m hm hc]
+  unfold loadNow
+  cases w.file m.path with
+  | none => rfl
+  | some db =>
+    simp only []
+    cases db.get id with
+    | none => rfl
+    | some ir => cases mkRemote ir <;> rfl
+
+/-- a manager created now and asked at once reads the file as it is now — nothing an earlier manager on the same path read
+    (and nothing any earlier version of the file held) is visible to it -/
+theorem manager_fresh_reads_current (w : MgrWorld) (p : Nat) (id : List Char) :
+    (mgrStep (mgrStep w (.create p)).1 (.get w.mgrs.length id)).2 = (match loadNow w p id with
+      | .ok r => .remote w.nextObj r
+      | .error e => .raised e) := by
+  have hm : (mgrStep w (.create p)).1.mgrs[w.mgrs.length]? = some { path := p, cache := [] } := by
+    simp [mgrStep]
+  rw [get_miss _ _ id _ hm rfl]
+  rfl
+
+/-- STABLE: once `get_remote(id)` has returned an object, the same manager returns that very object (same serial, same remote) for
+    that id ever after — whatever is written, replaced, removed, created or asked of any manager in between -/
+theorem manager_stable (w : MgrWorld) (i : Nat) (id : List Char) (obj : Nat) (r : Remote)
+    (h : (mgrStep w (.get i id)).2 = .remote obj r) (as : List MgrAct) :
+    (mgrStep (mgrRun (mgrStep w (.get i id)).1 as).1 (.get i id)).2 = .remote obj r := by
+  rw [get_of_entry _ i id obj r (entry_persists_run as _ i id (obj, r) (get_leaves_entry w i id obj r h))]
+
+/-- ISOLATION: what another manager is asked changes neither the files nor this manager -/
+theorem manager_isolated (w : MgrWorld) (i j : Nat) (hij : j ≠ i) (id' : List Char) :
+    (mgrStep w (.get j id')).1.files = w.files ∧ (mgrStep w (.get j id')).1.mgrs[i]? = w.mgrs[i]? := by
+  simp only [mgrStep]
+  cases hj : w.mgrs[j]? with
+  | none => exact ⟨rfl, rfl⟩
+  | some mj =>
+    simp only []
+    cases mj.cached id' with
+    | some y => exact ⟨rfl, rfl⟩
+    | none =>
+      simp only []
+      cases loadNow w mj.path id' with
+      | error e => exact ⟨rfl, rfl⟩
+      | ok r => exact ⟨rfl, by simp [setMgr, List.getElem?_set_ne hij]⟩
+
+/-- … hence the remote (not the serial number of the object) manager `i` returns is the same whether or not another manager was
+    asked something first -/
+theorem manager_answer_independent (w : MgrWorld) (i j : Nat) (hij : j ≠ i) (id id' : List Char) (m : Mgr)
+    (hm : w.mgrs[i]? = some m) (hc : m.cached id = none) :
+    ∀ r, (∃ o, (mgrStep (mgrStep w (.get j id')).1 (.get i id)).2 = .remote o r) ↔ (∃ o, (mgrStep w (.get i id)).2 = .remote o r) := by
+  obtain ⟨hf, hmi⟩ := manager_isolated w i j hij id'
+  have hload : loadNow (mgrStep w (.get j id')).1 m.path id = loadNow w m.path id := by
+    simp only [loadNow, MgrWorld.file, hf]
+  intro r
+  rw [get_miss _ i id m (hmi.trans hm) hc, get_miss w i id m hm hc, hload]
+  cases loadNow w m.path id with
+  | error e => simp
+  | ok r' => simp
+
+/-- SOUND, for every history from the empty world: every remote any manager returns is `mkRemote` of an IR set that some version of
+    the file at that manager's OWN path held under the requested id -/
+theorem manager_returns_stored (as : List MgrAct) (i : Nat) (id : List Char) (obj : Nat) (r : Remote) (m : Mgr)
+    (hm : (mgrRun mgrInit as).1.mgrs[i]? = some m)
+    (h : (mgrStep (mgrRun mgrInit as).1 (.get i id)).2 = .remote obj r) :
+    ∃ db ir, (m.path, db) ∈ histRun [] as ∧ db.get id = some ir ∧ mkRemote ir = .ok r := by
+  obtain ⟨hf, hc⟩ := sound_run as [] mgrInit sound_init
+  generalize (mgrRun mgrInit as).1 = w at hm h hf hc
+  cases hcache : m.cached id with
+  | some y =>
+    obtain ⟨o, r'⟩ := y
+    rw [get_hit w i id m o r' hm hcache] at h
+    cases h
+    simp only [Mgr.cached, Option.map_eq_some_iff] at hcache
+    obtain ⟨e, he, hval⟩ := hcache
+    have hid : e.1 = id := by simpa using List.find?_some he
+    obtain ⟨_, db, ir, h1, h2, h3⟩ := hc m (List.mem_of_getElem? hm) e (List.mem_of_find?_eq_some he)
+    rw [hval] at h3; rw [hid] at h2
+    exact ⟨db, ir, h1, h2, h3⟩
+  | none =>
+    rw [get_miss w i id m hm hcache] at h
+    simp only [loadNow] at h
+    cases hfile : w.file m.path with
+    | none => simp [hfile] at h
+    | some db =>
+      simp only [hfile] at h
+      cases hg : db.get id with
+      | none => simp [hg] at h
+      | some ir =>
+        simp only [hg] at h
+        cases hmk : mkRemote ir with
+        | error e => simp [hmk] at h
+        | ok r' =>
+          simp only [hmk] at h
+          cases h
+          exact ⟨db, ir, hf _ _ hfile, hg, hmk⟩
+
+/-- the history that separates a per-manager cache from a process-wide one: a file is read by one manager, then REPLACED; the first
+    manager keeps handing out the object it built, a manager created afterwards on the same path builds the remote of the new
+    content, and a manager on another path is not concerned -/
+def demoIr2 : IrSet := { demoIr with onOffType := 0, waves := [⟨cs!"ad_f1", cs!"Q", cs!"B"⟩, ⟨cs!"off", cs!"Q6", cs!"B6"⟩] }
+def demoHistory : List MgrAct :=
+  [.write 1 [(cs!"ELEC7022", demoIr)], .create 1, .get 0 cs!"ELEC7022", .write 1 [(cs!"ELEC7022", demoIr2)], .get 0 cs!"ELEC7022",
+   .create 1, .get 1 cs!"ELEC7022", .create 2, .get 2 cs!"ELEC7022", .remove 1, .get 0 cs!"ELEC7022", .get 1 cs!"NONE"]
+def outSummary : MgrOut → String
+  | .done => "done" | .noSuchManager => "no-manager" | .raised e => "raise " ++ e.name
+  | .remote o r => s!"obj{o} modes={r.supportedModes} toggle={r.onOffType}"
+example : (mgrRun mgrInit demoHistory).2.map outSummary =
+    ["done", "done", "obj0 modes=[AUTO, COOL, HEAT] toggle=true", "done", "obj0 modes=[AUTO, COOL, HEAT] toggle=true",
+     "done", "obj1 modes=[DRY] toggle=false", "done", "raise Other", "done", "obj0 modes=[AUTO, COOL, HEAT] toggle=true", "raise Other"] := by
+  decide +kernel
 
 end Props.C15
